@@ -22,10 +22,10 @@ OBLIGATIONS = [
        'kernel gets the feature\'s own tables, dip side flag and start radius', 'the public distance query reports the kernel\'s two distances unchanged', 'end'], '2-3 sections x 1-2 segments'),
 ]
 CUT = ['a shortcut (depth cut-off, bounding box) never discards a point that satisfies the membership definition', 'end-culled']
-CUT_OBS = [
+CUT_OBS = [dict(o, time_cap=900, qtimeout_ms=240000) for o in [
     ob('C07.cut.slab', 'h_c06_slab', [(1, 2, 1, 0), (1, 3, 2, 0)], CUT, '2-3 sections x 1-2 segments; planar-construction contract on the hypothetical kernel result', stubs=ST + ['planar-construction contract: depth - min depth <= d_along + |d_perp|; trench foot inside the coordinate box; horizontal offset from the foot <= d_along + |d_perp|']),
     ob('C07.cut.fault', 'h_c06_fault', [(1, 2, 1, 0), (1, 3, 2, 0)], CUT, 'as C07.cut.slab', stubs=ST + ['planar-construction contract as for the slab']),
-]
+]]
 # the real parse_entries() establishes the bounds that properties() culls with: a member discarded by a wrong bound breaks C06's 'if' direction as well
 import C07b
 OBLIGATIONS = OBLIGATIONS + C07b.bounds_obs('C06.parse', TUS[1:])
